@@ -11,15 +11,15 @@ import (
 
 func init() {
 	register(&Property{
-		ID:        "C20",
-		Title:     "Public-symbol validation sees every symbol a query references",
-		Technique: "static analysis: exhaustive visitor-forwarding rule over every ast.Node implementer (SSA must-pass per child field), leaf VisitSymbol rule, never-written-field rule for typing transforms, shape check of the validator",
-		LevelText: "The guarantee is a shape property of the Accept methods: for every struct type implementing ast.Node, every field that can hold a child node is forwarded to with the same visitor on every path (only a nil guard on that very field or on the receiver is allowed, slices are ranged in full); every leaf symbol node reports its name through VisitSymbol unconditionally; no node field that is read is left without a writer (a typed node that silently loses a child); the validator itself overrides VisitSymbol, latches the first error and is driven through query.Accept. Complete over node kinds; does not decide which symbols a deployment marks public.",
-		LevelNote: "Trusted: go/types, x/tools SSA; tabled: AllOfSetExprNode.name / AnyOfSetExprNode.name (string copies of the symbol whose node is the left operand of the forwarded predicate; constructor shape re-checked each run).",
-		DesignRef: "DESIGN.md C20",
+		ID:          "C20",
+		Title:       "Public-symbol validation sees every symbol a query references",
+		Technique:   "static analysis: exhaustive visitor-forwarding rule over every ast.Node implementer (SSA must-pass per child field), leaf VisitSymbol rule, never-written-field rule for typing transforms, shape check of the validator",
+		LevelText:   "The guarantee is a shape property of the Accept methods: for every struct type implementing ast.Node, every field that can hold a child node is forwarded to with the same visitor on every path (only a nil guard on that very field or on the receiver is allowed, slices are ranged in full); every leaf symbol node reports its name through VisitSymbol unconditionally; no node field that is read is left without a writer (a typed node that silently loses a child); the validator itself overrides VisitSymbol, latches the first error and is driven through query.Accept. Complete over node kinds; does not decide which symbols a deployment marks public.",
+		LevelNote:   "Trusted: go/types, x/tools SSA; tabled: AllOfSetExprNode.name / AnyOfSetExprNode.name (string copies of the symbol whose node is the left operand of the forwarded predicate; constructor shape re-checked each run).",
+		DesignRef:   "DESIGN.md C20",
 		Explanation: "Sites: every named struct type in package ast whose (pointer) method set satisfies ast.Node; per type every non-embedded field whose type implements Node (directly, via pointer, interface, or slice element).",
-		Trusted:   []string{"go/types", "golang.org/x/tools/go/ssa v0.29.0"},
-		Rules:     rulesC20,
+		Trusted:     []string{"go/types", "golang.org/x/tools/go/ssa v0.29.0"},
+		Rules:       rulesC20,
 		Controls: []controlExpect{
 			{"C20.FORWARD", "zzControlBadNode", true},
 			{"C20.FORWARD", "zzControlGoodNode", false},
@@ -553,6 +553,32 @@ func ruleC20Validator(c *Ctx) {
 				guarded = notPublic && first
 			}
 		}
+	}
+	// ... and on EVERY path where the symbol is not public and no error is latched (no extra condition)
+	if found && guarded {
+		isErrStore := func(in ssa.Instruction) bool {
+			st, ok := in.(*ssa.Store)
+			if !ok {
+				return false
+			}
+			f, _ := fieldOfAddr(st.Addr)
+			return sameVar(f, errFld)
+		}
+		guarded = noPathAvoiding(fn, isErrStore, func(from, to *ssa.BasicBlock) bool {
+			for ft := range fi.edgeFacts(from, to) {
+				if ft.Kind == "true" && ft.Pol {
+					if k, isCall := ft.V.(*ssa.Call); isCall && isCallTo(k, isPublic) {
+						return true
+					}
+				}
+				if ft.Kind == "nonnil" && ft.Pol {
+					if ff, _ := loadedField(ft.V); sameVar(ff, errFld) {
+						return true
+					}
+				}
+			}
+			return false
+		})
 	}
 	c.Check(found && guarded, "C20.VALIDATOR", "boltz.publicSymbolValidator.VisitSymbol: latch", p.Pos(fn.Pos()),
 		"records an error exactly when IsPublicSymbol(symbol) is false, keeping the first error", "the validator does not record an error under !IsPublicSymbol(symbol) && err == nil")
